@@ -54,7 +54,7 @@ func (f *OrefaFile) Chdir() error {
 		return &fs.PathError{Op: op, Path: f.name, Err: err}
 	}
 
-	_ = f.vfs.SetCurDir(f.name)
+	_ = f.vfs.SetCurDir(f.absPath)
 
 	return nil
 }
